@@ -230,6 +230,121 @@ def target_render_builtin_operation():
     return pyvc.collect(paths, "_render_builtin_operation"), sum(1 for p in paths if p.covered)
 
 
+def target_switch_candidate():
+    """header_generator._get_switch_candidate: a (discriminant, case value) pair is returned only for `field == constant`
+    (either order) on integers or enums, and for integers only when the constant lies inside the discriminant's inferred
+    bounds - so every `case` label of the generated switch is representable in the discriminant's C++ type (which
+    _cpp_integer_type_for_range chose to hold exactly those bounds) and the header compiles (C07); conditions that are not
+    candidates keep the ordinary `if` path (C01)."""
+    cons, hg, error, ir_util = _m()
+    ir_data = importlib.import_module("compiler.util.ir_data")
+    eng = pyvc.Engine()
+    eng.inline_fn(hg._is_equality_check, "compiler.back_end.cpp.header_generator._is_equality_check")
+    eng.contract(hg._render_expression, lambda interp, e, ir, **k: SRec("Rendered", {"is_constant": e.f["ghost_constant"], "rendered": "<x>"}), "_render_expression")
+    FM = ir_data.FunctionMapping
+
+    def harness(c):
+        op = c.choice("op", ["EQUALITY", "INEQUALITY", "LESS", "AND"])
+        kind = c.choice("operands", ["integer", "enumeration", "boolean"])
+        which = c.choice("expression", ["function", "field_reference"])
+        consts = [c.choice("a%d" % i, ["constant", "run-time"]) == "constant" for i in (0, 1)]
+        vals = []
+
+        def mk(i):
+            f = {"ghost_constant": consts[i], "tag": i}
+            if kind == "integer":
+                lo, hi, v = z3.Int("min%d" % i), z3.Int("max%d" % i), z3.Int("v%d" % i)
+                c.assume(lo <= hi)
+                if consts[i]:
+                    it = SRec("IntegerType", {"modular_value": SNumStr(v), "minimum_value": SNumStr(v), "maximum_value": SNumStr(v), "modulus": INF})
+                else:
+                    it = SRec("IntegerType", {"minimum_value": SNumStr(lo), "maximum_value": SNumStr(hi), "modular_value": SNumStr(z3.Int("mv%d" % i)), "modulus": SNumStr(z3.Int("mod%d" % i))})
+                vals.append((lo, hi, v))
+                f["type"] = SRec("ExpressionType", {"which_type": "integer", "integer": it})
+            else:
+                vals.append(None)
+                f["type"] = SRec("ExpressionType", {"which_type": kind})
+            return SRec("Expression", f)
+        args = [mk(0), mk(1)]
+        e = SRec("Expression", {"which_expression": which, "function": SRec("Function", {"function": getattr(FM, op), "args": args})})
+        c.covered = True
+        st, got = pyvc.run_body(c, "compiler.back_end.cpp.header_generator._get_switch_candidate", [e, SRec("EmbossIr", {})])
+        ok_shape = isinstance(got, tuple) and len(got) == 2
+        c.oblige("returns-a-pair", ok_shape, detail=repr(got))
+        if not ok_shape:
+            return
+        d, v = got
+        eligible = which == "function" and op == "EQUALITY" and kind in ("integer", "enumeration") and consts[0] != consts[1]
+        if d is None or v is None:
+            c.oblige("None-is-a-pair-of-Nones", d is None and v is None)
+            if eligible and kind == "enumeration":
+                c.oblige("enum-tag-comparisons-are-candidates", False, detail="eligible enum condition was not made a candidate")
+            if eligible and kind == "integer":
+                ci = 0 if consts[0] else 1
+                lo, hi, _ = vals[1 - ci]
+                cv = vals[ci][2]
+                c.oblige("in-range-integer-tags-are-candidates", z3.Not(z3.And(lo <= cv, cv <= hi)), detail="an in-range constant was refused")
+            return
+        c.oblige("only-eligible-conditions", eligible, detail="op=%s kind=%s consts=%s" % (op, kind, consts))
+        if not eligible:
+            return
+        ci = 0 if consts[0] else 1
+        c.oblige("discriminant-is-the-run-time-operand-and-case-value-the-constant", d is args[1 - ci] and v is args[ci])
+        if kind == "integer":
+            lo, hi, _ = vals[1 - ci]
+            cv = vals[ci][2]
+            c.oblige("case-label-within-the-discriminant's-bounds", z3.And(lo <= cv, cv <= hi))
+    paths = eng.explore(harness)
+    return pyvc.collect(paths, "_get_switch_candidate"), sum(1 for p in paths if p.covered)
+
+
+def target_write_range_check():
+    """header_generator._render_write_range_check: the C++ guard it renders for a transform-writable virtual field rejects
+    exactly the candidate values (of the field's C++ logical type) that lie outside the field's inferred [minimum, maximum]
+    - those can never be written, and evaluating the inverse transform on them could overflow (D6).  The literal texts
+    come from _render_integer, modelled as an opaque token per (symbolic) value."""
+    cons, hg, error, ir_util = _m()
+    eng = pyvc.Engine()
+    table = []
+
+    def render_integer(interp, v):
+        table.append(pyvc.zint(v))
+        return "LIT#%d" % (len(table) - 1)
+    eng.contract(hg._render_integer, render_integer, "_render_integer")
+
+    def harness(c):
+        del table[:]
+        ty = c.choice("logical_type", ORDER + ["bool", "::emboss::EnumType"])
+        which = c.choice("field", ["integer", "boolean"])
+        lo, hi = z3.Int("lo"), z3.Int("hi")
+        c.assume(lo <= hi)
+        if ty in RANGES:
+            c.assume(fits(lo, hi, ty))          # the logical type was chosen to hold the field's bounds (_cpp_integer_type_for_range)
+        t = SRec("ExpressionType", {"which_type": which, "integer": SRec("IntegerType", {"minimum_value": SNumStr(lo), "maximum_value": SNumStr(hi)})})
+        field = SRec("Field", {"read_transform": SRec("Expression", {"type": t})})
+        c.covered = True
+        st, got = pyvc.run_body(c, "compiler.back_end.cpp.header_generator._render_write_range_check", [field, ty])
+        c.oblige("returns-text", isinstance(got, str), detail=repr(got))
+        if not isinstance(got, str):
+            return
+        import re
+        clauses = re.findall(r"emboss_reserved_local_value (<|>) static_cast</\*\*/([^>]*)>\(LIT#(\d+)\)", got)
+        if which != "integer" or ty not in RANGES:
+            c.oblige("no-guard-for-non-integer-fields", got == "", detail=got)
+            return
+        v = z3.Int("candidate")
+        a, b = RANGES[ty]
+        rejects = z3.Or([(v < table[int(k)]) if op == "<" else (v > table[int(k)]) for (op, tname, k) in clauses]) if clauses else z3.BoolVal(False)
+        c.oblige("casts-name-the-logical-type", all(tname == ty for (_, tname, _) in clauses), detail=got)
+        c.oblige("guard-is-a-return-false-on-exactly-these-clauses", (got == "") == (not clauses) and (not clauses or ("return false" in got and got.count("emboss_reserved_local_value") == len(clauses))), detail=got)
+        c.oblige("rejects-exactly-the-candidates-outside-the-field's-bounds", z3.Implies(z3.And(v >= a, v <= b), rejects == z3.Not(z3.And(lo <= v, v <= hi))), detail=got)
+        # the literals themselves are representable in the logical type (static_cast is value-preserving)
+        for (_, _, k) in clauses:
+            c.oblige("literals-fit-the-logical-type", z3.And(table[int(k)] >= a, table[int(k)] <= b))
+    paths = eng.explore(harness)
+    return pyvc.collect(paths, "_render_write_range_check"), sum(1 for p in paths if p.covered)
+
+
 def replay_render_builtin_operation(name, model):
     """Real front end + back end on witness modules: every rendered arithmetic call names an IntermediateT whose range
     holds the inferred bounds of the operation's result and operands (read back from the IR)."""
@@ -272,6 +387,98 @@ def replay_render_builtin_operation(name, model):
     return {"reproduced": bool(bad), "inputs": src, "violations": bad[:4]}
 
 
-TARGETS = {"can_fit": target_can_fit, "_render_builtin_operation": target_render_builtin_operation, "_integer_bounds_errors": target_integer_bounds_errors,
+TARGETS = {"can_fit": target_can_fit, "_render_builtin_operation": target_render_builtin_operation, "_get_switch_candidate": target_switch_candidate, "_render_write_range_check": target_write_range_check, "_integer_bounds_errors": target_integer_bounds_errors,
            "_integer_bounds_errors_for_expression": target_bounds_errors_for_expression,
            "_cpp_integer_type_for_range": target_type_for_range, "_cpp_integer_type_for_enum": target_type_for_enum}
+
+
+def target_generate_enum_definition():
+    """header_generator._generate_enum_definition (C19), for every enum of up to 3 declared values (symbolic numeric values,
+    so every pattern of duplicates), one or two requested spellings per value, with and without traits:
+      * one enumerator per declared name and spelling, with the declared value, in declaration order;
+      * TryToGetEnumFromName gets a strcmp case for EVERY declared Emboss name (also names that share their value with an
+        earlier one), mapping it to one of its own enumerators, and for nothing else;
+      * TryToGetNameFromEnum / EnumIsKnown get a case exactly for the FIRST declared name of each distinct value (so the
+        first-name rule holds and no duplicate `case` label is emitted);
+      * the underlying type is _cpp_integer_type_for_enum(maximum_bits, is_signed) in declaration and definition."""
+    cons, hg, error, ir_util = _m()
+    code_template = importlib.import_module("compiler.back_end.util.code_template")
+    eng = pyvc.Engine()
+    eng.contract(ir_util.get_integer_attribute, lambda interp, attrs, name, default_value=None: SInt(z3.Int("maximum_bits")), "get_integer_attribute")
+    eng.contract(ir_util.get_boolean_attribute, lambda interp, attrs, name, default_value=None: True, "get_boolean_attribute")
+    eng.contract(hg._cpp_integer_type_for_enum, lambda interp, bits, signed: "UnderlyingT", "_cpp_integer_type_for_enum")
+    eng.contract(ir_util.constant_value, lambda interp, e, bindings=None: e.f["ghost_cv"], "constant_value")
+    eng.contract(hg._get_enum_value_names, lambda interp, v: list(v.f["ghost_spellings"]), "_get_enum_value_names")
+    eng.contract(hg._render_integer, lambda interp, v: ("INT", v), "_render_integer")
+
+    tnames = {id(getattr(hg._TEMPLATES, k)): k for k in hg._TEMPLATES._fields}
+
+    def fmt(interp, template, **kw):
+        return [("T", tnames.get(id(template), "?"), kw)]          # rendered text = a list of opaque pieces
+    eng.contract(code_template.format_template, fmt, "format_template")
+
+    def harness(c):
+        n = int(c.choice("values", ["1", "2", "3"]))
+        traits = c.choice("traits", ["yes", "no"]) == "yes"
+        vals = []
+        for i in range(n):
+            sp = int(c.choice("spellings%d" % i, ["1", "2"]))
+            num = z3.Int("value%d" % i)
+            vals.append(SRec("EnumValue", {"value": SRec("Expression", {"ghost_cv": SInt(num)}), "name": SRec("NameDefinition", {"name": SRec("Word", {"text": "NAME%d" % i})}),
+                                            "ghost_spellings": ["NAME%d" % i, "kName%d" % i][:sp], "ghost_num": num}))
+        type_ir = SRec("TypeDefinition", {"attribute": [], "enumeration": SRec("Enum", {"value": vals}), "name": SRec("NameDefinition", {"name": SRec("Word", {"text": "Ee"})})})
+        c.covered = True
+        # join() of template results: the harness keeps them as tuples, so "".join / "\n".join are modelled by collecting
+        st, got = pyvc.run_body(c, "compiler.back_end.cpp.header_generator._generate_enum_definition", [type_ir, traits])
+        ok = isinstance(got, tuple) and len(got) == 3
+        c.oblige("returns-(declaration,definition,methods)", ok, detail=repr(got)[:200])
+        if not ok:
+            return
+        decl, defn, _ = got
+        ok = isinstance(decl, list) and len(decl) == 1 and isinstance(defn, list) and len(defn) >= 1
+        c.oblige("declaration-and-definition-are-rendered-templates", ok, detail=repr(got)[:200])
+        if not ok:
+            return
+        decl = decl[0]
+        c.oblige("declaration-names-the-underlying-type", decl[1] == "enum_declaration" and decl[2].get("enum_type") == "UnderlyingT" and decl[2].get("enum") == "Ee", detail=repr(decl)[:200])
+        parts = defn if isinstance(defn, list) else [defn]
+        d0 = parts[0]
+        c.oblige("definition-names-the-underlying-type", d0[1] == "enum_definition" and d0[2].get("enum_type") == "UnderlyingT", detail=repr(d0)[:200])
+        evs = d0[2].get("enum_values")
+        want = [(sp, v) for v in vals for sp in v.f["ghost_spellings"]]
+        shape = isinstance(evs, list) and len(evs) == len(want) and all(e[1] == "enum_value" and e[2]["name"] == sp for e, (sp, v) in zip(evs, want))
+        c.oblige("one-enumerator-per-name-and-spelling-in-order", shape, detail=repr(evs)[:300])
+        if shape:
+            c.oblige("enumerators-carry-the-declared-values", z3.And([pyvc.zint(e[2]["value"][1]) == v.f["ghost_num"] for e, (sp, v) in zip(evs, want)]))
+        if not traits:
+            c.oblige("no-traits-when-not-requested", len(parts) == 1)
+            return
+        c.oblige("traits-emitted", len(parts) == 2 and parts[1][1] == "enum_traits", detail=repr(parts)[:200])
+        if len(parts) != 2:
+            return
+        tk = parts[1][2]
+        fn, nf, ik = tk.get("enum_from_name_cases"), tk.get("name_from_enum_cases"), tk.get("enum_is_known_cases")
+        c.oblige("case-lists", all(isinstance(x, list) for x in (fn, nf, ik)))
+        if not all(isinstance(x, list) for x in (fn, nf, ik)):
+            return
+        names_fn = [(e[2]["name"], e[2]["value"]) for e in fn]
+        for v in vals:
+            nm = v.f["name"].f["name"].f["text"]
+            mine = [val for (n_, val) in names_fn if n_ == nm]
+            c.oblige("from-name-case-for-every-declared-name[%s]" % nm, len(mine) >= 1 and all(x in v.f["ghost_spellings"] for x in mine), detail=str(names_fn))
+        c.oblige("from-name-cases-for-declared-names-only", all(n_ in ["NAME%d" % i for i in range(n)] for (n_, _) in names_fn))
+        # first-name rule: a value's name/known cases come from its first declaration only
+        for idx, v in enumerate(vals):
+            first = z3.And([v.f["ghost_num"] != w.f["ghost_num"] for w in vals[:idx]]) if idx else z3.BoolVal(True)
+            has_nf = any(e[2]["name"] == "NAME%d" % idx for e in nf)
+            has_ik = any(e[2]["name"] in v.f["ghost_spellings"] for e in ik)
+            c.oblige("name-from-enum-case-iff-first-declaration-of-the-value[NAME%d]" % idx, z3.BoolVal(has_nf) == first)
+            c.oblige("is-known-case-iff-first-declaration-of-the-value[NAME%d]" % idx, z3.BoolVal(has_ik) == first)
+            if has_nf:
+                mine = [e for e in nf if e[2]["name"] == "NAME%d" % idx]
+                c.oblige("one-case-label-per-distinct-value[NAME%d]" % idx, len(mine) == 1 and mine[0][2]["value"] in v.f["ghost_spellings"], detail=repr(mine)[:200])
+    paths = eng.explore(harness)
+    return pyvc.collect(paths, "_generate_enum_definition"), sum(1 for p in paths if p.covered)
+
+
+TARGETS["_generate_enum_definition"] = target_generate_enum_definition
